@@ -6,6 +6,7 @@ import re
 
 NAME = "mrs_hist"
 PROPERTIES = ["C20"]
+SCREEN_FLOAT_CASTS = True
 MH = "metrique-metricsrs/src/metrics_histogram.rs"
 
 
